@@ -42,6 +42,35 @@ CHECKS.update({
          G + "pairs built on purpose to differ late (last character, one skipped blank, span offset) so that a partial eq/hash is caught; histories of up to 5 intervening parses of other rules/grammars between two probes.",
          "Debug prints every stored field (spans, skipped items), which is what makes it a usable structural oracle", "6 C18"),
 })
+CHECKS.update({
+ "C05": ("runner", "proptest over stack-using generated grammars; oracle: reference interpreter with an immutable stack; final stack observed through the _with entry points",
+         G + "verdict, cursor and final stack contents of try_parse_partial_with / try_check_partial_with against full-backtracking semantics; cases counted as non-trivial only when a scope failed after a stack modification or a predicate operand modified the stack.",
+         "K2 (pest::Stack::clear_snapshot, dependency) classified by executing pest-typed's snapshot placement on a real pest::Stack", "6 C05"),
+ "C06": ("runner", "bounded-exhaustive enumeration over stacks x slice bounds x tails; oracles: list-slicing model from the statement, reference interpreter, pest where defined",
+         "Slice grammar (one rule per PEEK[a..b], PEEK[a..], PEEK[..b], a,b in -3..3, thorough -6..6) x all 121 stacks of depth <=4 over {a,b,ab} x expected text, its single-character mutations, proper prefixes and extensions; stack built-ins in normal/!/@/$ context x all stacks of depth <=3 x all tails <=4 over {a,b,!,blank}. Exhaustive inside the named scope.",
+         "the model's agreement with the reference interpreter is itself checked on every case", "6 C06"),
+ "C07": ("runner", "bounded-exhaustive gap-subset enumeration on the kind-nesting grammar family; differential against pest_derive (verdict, cursor, all rule token spans)",
+         "For each of the 25 caller/callee kind pairs (125 chains in the thorough tier) x sequence and repetition x 4 WHITESPACE/COMMENT combinations: every subset of the gaps of every base sentence receives skippable text (all 2^(n+1) subsets up to 10 gaps, 1024 seeded subsets above).",
+         "no stack operations in this family, so pest is defined everywhere; K1 classified by defect model", "6 C07"),
+ "C10": ("runner", "proptest over rejected inputs; oracle: attempt trace (rule, position, outcome) of the reference interpreter on the optimised AST",
+         G + "tracker position in range / on a boundary / not before the matched prefix; every expected rule failed and every unexpected rule matched at that position in the reference trace; special entries correspond to trace events; Display does not panic; location and line/column agree; two runs identical.",
+         "cases where acceptance itself deviates (K1, K2) belong to C01 and are skipped", "6 C10"),
+ "C11": ("runner + verif_gen", "generated ill-formed grammars (catalogue x terminals, random AST mutations of valid grammars, rejected candidates): pest_meta verdict vs the generator library under catch_unwind in a separate process; compile attribution of the corpus build; watchdog-bounded termination sweep",
+         "rejected by pest's validator <=> derive_typed_parser panics; accepted => tokens parse as Rust and every corpus grammar compiles; every parse of every well-founded (grammar, rule, input) case returns within the watchdog (30 s without progress).",
+         "termination is bounded liveness, not a proof; grammars only validate_pairs rejects (names) are outside the statement", "6 C11"),
+ "C16": ("runner", "proptest over getter-family grammars compiled with emit_rule_reference and generated harness code calling every getter; oracle: shape rebuilt from the documented rules, evaluated along the reference derivation",
+         "r.x() flattened through a trait over &T/Option/Vec/tuples (leaf = rule name, span, token subtree) must equal the expected nesting and the mentions of x that r's own expression matched, in expression order.",
+         "built-ins are rendered by character / kind / span; getters on Unicode properties outside the sampled ten are not probed", "6 C16"),
+ "C17": ("runner", "exhaustive enumeration over arities 2..16 x alternative indices x overlapping inputs, gap subsets for sequences/repetitions, boundary-dense character sets for leaves; oracle: reference derivation cross-checked with the construction of the input",
+         "Generated accessor code (_k(), if_then/else_if/else_then, reference(), consume_if_then, match_choices!, get_matched/as_ref/into_matched/get_all, iter_matched/iter_all/into_iter_matched, leaf contents) compiled against the real derive output for library-provided (<=12) and macro-generated (13..16) arities.",
+         "one hand-written arity grammar; skip-until is instantiated from the runtime crate because generated rule structs never expose it", "6 C17"),
+ "C19": ("verif_rt", "bounded-exhaustive enumeration of inputs over combinators instantiated from the runtime crate; oracle: executable model of the statement",
+         "219 + 55 combinator instances (RepMin/RepMinMax/RepExact for all MIN<=MAX in 0..4 x SKIP x 4 element kinds, arrays, pairs, optionals, SkipChar, AtomicRepeat, pushing/popping pairs) x all strings <=8 over {a,b,blank} and <=5 with a 2-byte letter: verdict, offset, element count, blanks skipped per element, final stack, parse vs check.",
+         "the model is small and written from the property text", "6 C19"),
+ "C20": ("runner + verif_gen", "three separate generator processes compared token-for-token on every corpus grammar; option variants of recursive grammars compiled side by side and compared on proptest-generated inputs",
+         "determinism of the emitted token stream across processes; every variant compiles; verdict, cursor and token forest of each of 7 non-default option sets equal the default variant's (which C01/C02 tie to pest).",
+         "K5 (does not compile) and K6 (e+ under pest_optimizer=false) are listed findings with exact models", "6 C20"),
+})
 NOT_YET = {}
 
 def main():
